@@ -183,6 +183,18 @@ static bool evalT(std::string const& op, std::vector<u64> const& a, std::vector<
 		r.push_back((e[0] ? 1 : 0) | (e[1] ? 2 : 0)); r.push_back((d[0] ? 1 : 0) | (d[1] ? 2 : 0));
 		return true;
 	}
+	if(op == "eqU_mS")
+	{	// every matrix shape with one int and with a vec<C,int> of ULPs: element (c, r) of the CxR matrices is pair (c*R + r) % 4 of (x0,y0) .. (x3,y3);
+		// result bit per column, the nine shapes in the order 2x2 2x3 2x4 3x2 ... 4x4 (27 columns)
+		NEED(9); int const k = static_cast<int>(a[8]); u64 e1 = 0, n1 = 0, e2 = 0, n2 = 0; int bit = 0;
+#define SHAPE(C, Rw) { glm::mat<C, Rw, T, glm::defaultp> x, y; for(int c = 0; c < C; ++c) for(int w = 0; w < Rw; ++w) { int p = (c * Rw + w) % 4; x[c][w] = R::f(a[2 * p]); y[c][w] = R::f(a[2 * p + 1]); } \
+		glm::vec<C, bool> const E1 = glm::equal(x, y, k), N1 = glm::notEqual(x, y, k), E2 = glm::equal(x, y, glm::vec<C, int>(k)), N2 = glm::notEqual(x, y, glm::vec<C, int>(k)); \
+		for(int c = 0; c < C; ++c, ++bit) { e1 |= (u64)(E1[c] ? 1 : 0) << bit; n1 |= (u64)(N1[c] ? 1 : 0) << bit; e2 |= (u64)(E2[c] ? 1 : 0) << bit; n2 |= (u64)(N2[c] ? 1 : 0) << bit; } }
+		SHAPE(2, 2) SHAPE(2, 3) SHAPE(2, 4) SHAPE(3, 2) SHAPE(3, 3) SHAPE(3, 4) SHAPE(4, 2) SHAPE(4, 3) SHAPE(4, 4)
+#undef SHAPE
+		r.push_back(e1); r.push_back(n1); r.push_back(e2); r.push_back(n2);
+		return true;
+	}
 	if(op == "eqE_s" || op == "eps_s")
 	{
 		NEED(3); T const x = R::f(a[0]), y = R::f(a[1]), e = R::f(a[2]);
@@ -362,7 +374,7 @@ template<typename T> static void genLines(Rng& g, bool thorough)
 		{
 			size_t const p2 = g.below(px.size()), q2 = g.below(px.size());
 			std::vector<u64> m = a; m.push_back(px[p2]); m.push_back(py[p2]); m.push_back(px[q2]); m.push_back(py[q2]);
-			m.push_back(KS[g.below(sizeof(KS) / sizeof(KS[0]))]); run("eqU_m", w, m);
+			m.push_back(KS[g.below(sizeof(KS) / sizeof(KS[0]))]); run("eqU_m", w, m); run("eqU_mS", w, m);
 		}
 	}
 	// ---- epsilon comparisons: epsilon around |fl(x - y)| (exactly, one ulp either side), zero, -0, negative, inf, NaN
